@@ -1287,7 +1287,9 @@ fn run_b(c: &Case) -> Fails {
     let given_key = rng.bytes(32);
     let (upw, opw) = match (prep_password(c.r, &c.user), prep_password(c.r, &c.owner)) { (Some(u), Some(o)) => (u, o), _ => { push(&mut f, "harness-password-family", "a generated password is outside PDFDocEncoding".into()); return f; } };
     let eff_owner: Vec<u8> = if c.r <= 4 && opw.is_empty() { upw.clone() } else { opw.clone() };
-    let plain = plain_objects(c.r);
+    // lopdf's save_to takes time proportional to the largest object number: the object numbered above 2^24 is encrypted through
+    // the public per-object entry point (encryption::encrypt_object) instead of travelling through the file
+    let (big, plain): (Vec<_>, Vec<_>) = plain_objects(c.r).into_iter().partition(|x| x.0 .0 > 1_000_000);
     let mut doc = Document::with_version("1.7");
     for (id, o) in &plain { doc.objects.insert(*id, o.clone()); }
     doc.max_id = plain.iter().map(|x| x.0 .0).max().unwrap_or(0);
@@ -1446,8 +1448,17 @@ fn run_b(c: &Case) -> Fails {
 
     // --- every string and stream
     let rc = RefCrypt { fkey: &fkey, stm: stm_c, strf: str_c, em: em_dict.unwrap_or(true), named: &named };
-    for (id, po) in &plain {
-        let eo = match src.objects.get(id) { Some(x) => x, None => { push(&mut f, &ob("lopdf-encrypted-opens-in-reference"), format!("{}: object {} {} is missing", via, id.0, id.1)); continue; } };
+    let mut extra_objs: BTreeMap<(u32, u16), Object> = BTreeMap::new();
+    for (id, po) in &big {
+        let mut o = po.clone();
+        match lib(|| lopdf::encryption::encrypt_object(&state, *id, &mut o)) {
+            Err(p) => push(&mut f, "no-panic", format!("encrypt_object panicked: {}", p)),
+            Ok(Err(e)) => push(&mut f, &ob("encrypt-ok"), format!("encrypt_object failed for object {} {}: {}", id.0, id.1, e)),
+            Ok(Ok(())) => { extra_objs.insert(*id, o); }
+        }
+    }
+    for (id, po) in plain.iter().chain(big.iter()) {
+        let eo = match src.objects.get(id).or_else(|| extra_objs.get(id)) { Some(x) => x, None => { push(&mut f, &ob("lopdf-encrypted-opens-in-reference"), format!("{}: object {} {} is missing", via, id.0, id.1)); continue; } };
         let mut errs = vec![];
         let dec = rc.decrypt(*id, eo, &format!("{} {}", id.0, id.1), &mut errs);
         let problem = errs.into_iter().next().or_else(|| diff_obj(po, &dec, &format!("{} {}", id.0, id.1)));
